@@ -171,6 +171,9 @@ theorem step_fresh (s s' : St) (a : Act) (h : Fresh s) (hs : step s a = some s')
       · split at hs <;> (simp only [Option.some.injEq] at hs; subst hs; exact Fresh_of_eq s _ h rfl rfl rfl rfl rfl rfl)
       · simp only [Option.some.injEq] at hs; subst hs; exact Fresh_of_eq s _ h rfl rfl rfl rfl rfl rfl
     · simp only [Option.some.injEq] at hs; subst hs; exact Fresh_of_eq s _ h rfl rfl rfl rfl rfl rfl
+  | sendLocal lid adapter =>
+    simp only [step] at hs
+    split at hs <;> (simp only [Option.some.injEq] at hs; subst hs; exact Fresh_of_eq s _ h rfl rfl rfl rfl rfl rfl)
   | remove id =>
     simp only [step, Option.some.injEq] at hs; subst hs
     have hd := deregister_fresh s id .user h
@@ -521,6 +524,9 @@ theorem step_inv (s s' : St) (a : Act) (h : Inv s) (hs : step s a = some s') : I
         · simp only [Option.some.injEq] at hs; subst hs; exact Inv_record s h _ _ _
       · simp only [Option.some.injEq] at hs; subst hs; exact Inv_record s h _ _ _
     · simp only [Option.some.injEq] at hs; subst hs; exact Inv_record s h _ _ _
+  | sendLocal lid adapter =>
+    simp only [step] at hs
+    split at hs <;> (simp only [Option.some.injEq] at hs; subst hs; exact Inv_record s h _ _ _)
   | remove id =>
     simp only [step, Option.some.injEq] at hs; subst hs
     obtain ⟨d1, d2, d3, d4, d5, d6, d7⟩ := deregister_live s id .user
@@ -972,6 +978,9 @@ theorem step_shape (s s' : St) (a : Act) (hs : step s a = some s') : Shape s s' 
       · split at hs <;> (simp only [Option.some.injEq] at hs; subst hs; exact .same rfl (fun _ h => h) rfl)
       · simp only [Option.some.injEq] at hs; subst hs; exact .same rfl (fun _ h => h) rfl
     · simp only [Option.some.injEq] at hs; subst hs; exact .same rfl (fun _ h => h) rfl
+  | sendLocal lid adapter =>
+    simp only [step] at hs
+    split at hs <;> (simp only [Option.some.injEq] at hs; subst hs; exact .same rfl (fun _ h => h) rfl)
   | remove id =>
     simp only [step, Option.some.injEq] at hs; subst hs
     obtain ⟨e1, e2, e3⟩ := deregister_shape s id .user
@@ -1133,6 +1142,9 @@ theorem step_delta (s s' : St) (a : Act) (hs : step s a = some s') : Delta s s' 
       · split at hs <;> (simp only [Option.some.injEq] at hs; subst hs; exact q0 _ rfl rfl rfl)
       · simp only [Option.some.injEq] at hs; subst hs; exact q0 _ rfl rfl rfl
     · simp only [Option.some.injEq] at hs; subst hs; exact q0 _ rfl rfl rfl
+  | sendLocal lid adapter =>
+    simp only [step] at hs
+    split at hs <;> (simp only [Option.some.injEq] at hs; subst hs; exact q0 _ rfl rfl rfl)
   | remove id =>
     simp only [step, Option.some.injEq] at hs; subst hs
     obtain ⟨d1, d2, d3, d4, d5, d6, d7⟩ := deregister_live s id .user
